@@ -96,8 +96,8 @@ def gen_plan(prop, run_seed, tier):
         plan["screen"] = spec
         plan["prepare"] = dict(fraction=w.choice([0.0, 0.3]), seed=w.randrange(2**31)) if w.random() < 0.3 else None
         n_steps = s.randint(2, 16 if tier == "quick" else 40)
-        ops = ["reveal"] * 6 + ["reveal_cli"] * 2 + ["mask", "unmask", "save_load", "save_load",
-                                                      "set_observed", "set_observed", "construct", "construct"]
+        ops = ["reveal"] * 6 + ["reveal_cli"] * 2 + ["mask", "mask", "unmask", "save_load", "save_load",
+                                                      "set_observed", "set_observed", "set_observed", "construct", "construct"]
     elif prop == "C02":
         spec = gen.gen_screen(w, alphabet=w.choice(["tricky", "tricky", "ascii"]))
         _sprinkle_special_obs(w, spec)
@@ -115,7 +115,8 @@ def gen_plan(prop, run_seed, tier):
     steps = []
     for _ in range(n_steps):
         op = s.choice(ops)
-        st = dict(op=op, t=s.randrange(64), sub=s.randrange(2**31), rep=s.random() < 0.5)
+        # half of the operations continue on the most recently created screen (t = -1): real histories are chains
+        st = dict(op=op, t=(-1 if s.random() < 0.5 else s.randrange(64)), sub=s.randrange(2**31), rep=s.random() < 0.5)
         if op in ("reveal", "reveal_cli"):
             st["mode"] = s.choice(["one", "one", "some", "all", "unknown", "observed", "repeat", "mixed"])
             if prop == "C12" and f.random() < 0.25:
@@ -128,6 +129,7 @@ def gen_plan(prop, run_seed, tier):
             st["kind"] = f.choice(["gap", "uncover_treatment", "uncover_sample", "sample_gap", "dup_id"])
         if op == "set_observed":
             st["whole"] = s.random() < 0.6
+            st["inplace"] = s.random() < 0.7
         if op == "construct":
             st["kind"] = s.choice(["mixed", "obs_no_mask", "no_obs", "mask_no_obs"])
         steps.append(st)
@@ -176,9 +178,16 @@ def _sprinkle_special_obs(w, spec):
 
 
 class Live:
-    __slots__ = ("screen", "rows", "lineage_sizes", "supplied", "tag", "tainted")
+    __slots__ = ("screen", "rows", "lineage_sizes", "supplied", "tag", "tainted", "group")
+    _next_group = [0]
 
-    def __init__(self, screen, rows, lineage_sizes=None, supplied=None, tag=""):
+    def __init__(self, screen, rows, lineage_sizes=None, supplied=None, tag="", group=None):
+        # storage group: screens derived by reveal / mask / unmask share their observation array with the
+        # screen they came from (no property speaks about that aliasing; the reference only tracks it)
+        if group is None:
+            Live._next_group[0] += 1
+            group = Live._next_group[0]
+        self.group = group
         self.tainted = False  # an id violation was already reported for this screen or an ancestor
         self.screen = screen
         self.rows = rows  # reference content rows (expected)
@@ -277,7 +286,7 @@ def _run(ctx):
         if not ctx.pool:
             break
         fn = OPS[st["op"]]
-        t = st["t"] % len(ctx.pool)
+        t = (len(ctx.pool) - 1) if st["t"] < 0 else st["t"] % len(ctx.pool)
         ctx.log.ev("step", i, st["op"], t)
         fn(ctx, st, t)
         ctx.stats.steps += 1
@@ -579,7 +588,7 @@ def op_reveal(ctx, st, t, cli=False):
                               f"{after_counts['n_unobserved_plates']} but {n_new} plates were newly revealed "
                               f"(reference unobserved before: {ref_unobs_before})")
             ctx.stats.probe("metadata_counter_checked")
-    child = Live(new, expected, live.lineage_sizes, "unknown", live.tag)
+    child = Live(new, expected, live.lineage_sizes, "unknown", live.tag, group=(None if cli else live.group))
     _lineage_check(ctx, live, child, "reveal")
     _put(ctx, st, t, child)
 
@@ -632,7 +641,7 @@ def op_mask(ctx, st, t, value=False):
             ctx.violation(f"{ctx.prop}.mask-crashed", "mask_screen", f"mask/unmask raised {e!r}")
         return
     expected = [(r[0], r[1], r[2], r[3], bool(value)) for r in live.rows]
-    child = Live(new, expected, live.lineage_sizes, "unknown", live.tag)
+    child = Live(new, expected, live.lineage_sizes, "unknown", live.tag, group=live.group)
     _lineage_check(ctx, live, child, "unmask" if value else "mask")
     _put(ctx, st, t, child)
 
@@ -857,10 +866,12 @@ def op_set_observed(ctx, st, t):
         plates = sorted({r[3] for r in src.rows})
         chosen = set(rnd.sample(plates, rnd.randint(1, len(plates))))
         sel = np.array([r[3] in chosen for r in src.rows], dtype=bool)
+        # whole plates: the live screen itself is edited in place (it stays plate-atomic)
+        target = src if st.get("inplace", True) else _private_copy(ctx, src)
     else:
-        # arbitrary selection: the result may hold partly observed plates, so it never joins the pool
+        # arbitrary selection: the result may hold partly observed plates, so it is a throw-away copy
         sel = np.array([rnd.random() < 0.4 for _ in range(n)], dtype=bool)
-    target = _private_copy(ctx, src)
+        target = _private_copy(ctx, src)
     if target is None:
         return
     k = int(sel.sum())
@@ -877,7 +888,7 @@ def op_set_observed(ctx, st, t):
     it = iter(bits)
     expected = [(r[0], r[1], int(next(it)) if s else r[2], r[3], True if s else r[4]) for r, s in zip(before, sel)]
     got = ref.content_rows(target.screen)
-    ctx.log.ev("set_observed", k, digest(got))
+    ctx.log.ev("set_observed", k, digest(got), target is src)
     if ctx.prop == "C12":
         ctx.stats.oracle_evals += 1
         ctx.stats.probe("set_observed_checked")
@@ -888,7 +899,21 @@ def op_set_observed(ctx, st, t):
                           f"got {[got[i] for i in bad]} want {[expected[i] for i in bad]}")
     if whole:
         target.rows = expected
-        _put(ctx, st, t, target)
+        if target is src:
+            ctx.stats.probe("set_observed_in_place_on_live_screen")
+            # screens of the same storage group may see the new VALUES at the same rows (shared observation
+            # array); their masks, and everything of every other screen, must be untouched (judged by _check_all)
+            it2 = iter(bits)
+            newbits = [int(next(it2)) if s else None for s in sel]
+            for other in ctx.pool:
+                if other is src or other.group != src.group or len(other.rows) != n:
+                    continue
+                actual = ref.content_rows(other.screen)
+                cand = [(r[0], r[1], (b if b is not None else r[2]), r[3], r[4]) for r, b in zip(other.rows, newbits)]
+                if actual == cand:
+                    other.rows = cand
+        else:
+            _put(ctx, st, t, target)
 
 
 def op_construct(ctx, st, t):
